@@ -20,7 +20,7 @@ Requirements for the change:
 
 Deliverables, all written into {wt}/deliver/ :
 1. patch.diff  - output of `git -C {wt} diff -- mystic` (the change only; applies with `git apply` at the worktree root).
-2. demo.py - a small standalone program (no pytest needed) that, when copied to the root of a checkout and run there with /venv/bin/python demo.py, exits 1 (printing what went wrong in terms of the property) when the change is applied and exits 0 printing PASS on the unchanged tree. It must insert its own directory at sys.path[0] before importing mystic. It must be deterministic (seed random and numpy.random) and finish in under 2 minutes. Verify both outcomes yourself (use `git stash` / `git apply -R` to flip the change).
+2. demo.py - a small standalone program (no pytest needed) that, when copied to the root of a checkout and run there with /venv/bin/python demo.py, exits 1 (printing what went wrong in terms of the property) when the change is applied and exits 0 printing PASS on the unchanged tree. It must insert its own directory at sys.path[0] before importing mystic. It must be deterministic (seed random and numpy.random) and finish in under 2 minutes. Verify both outcomes yourself (flip the change with `git apply -R deliver/patch.diff` and `git apply deliver/patch.diff`; do NOT use `git stash` - the stash is shared between all worktrees of this repository and other people are using it).
 3. notes.md - 10-25 lines: what the change is (file/function), why it breaks the property, exactly what is needed for it to manifest, why the existing tests do not notice, and the suite result you obtained.
 
 Finish by making sure the worktree has the change applied and deliver/ holds the three files. Your final answer should be a 5-line summary (file changed, mechanism, what it needs to manifest, demo outcome with/without, suite outcome).""")
